@@ -13,7 +13,11 @@ SPEC = {
             'fresh process (rpc.New -> SetAPI(spy) -> SetQueueClientNoListen -> Listen) and hit over real TCP from 127.0.0.1, 127.0.0.2, '
             '::1, 192.0.2.2, fd00::2 and lo aliases 10.39.1.1 10.39.1.2 10.39.2.1 fd39::1 fd39::2 fe80::39:1%lo (added and removed by the harness; '
             'fewer addresses if ip addr add fails): 24 JSON-RPC requests (key case variants, duplicate keys, null/typed method, extra fields, '
-            'params/id shapes, \\u-escaped method, batch/garbage/trailing bodies, paths, Authorization header shapes), 12 gRPC calls '
+            'params/id shapes, \\u-escaped method, batch/garbage/trailing bodies, paths, Authorization header shapes) '
+            '+ a directed duplicate-key stream (4 per configuration that has an allowed and a forbidden registered method and a non-loopback '
+            'client passing the IP gate, 27 for each of 5 dedicated configurations with non-trivial function lists: two or three keys folding '
+            'to "method" in different spellings or exactly repeated, both orders, before/after params, trailing null, one value allowed and one '
+            'forbidden, valid credentials), 12 gRPC calls '
             '(full-method spellings, unary and streaming), 19 eth requests (every client address + forged RemoteAddr incl. ::ffff: mapped, '
             'upper-case IPv6, zone, unsplittable), 4 rpc.CheckIPWhitelist probes. one case = one request with its observables '
             '(response class + API methods the spy saw). non-trivial = client is not loopback (and for JSON-RPC: passed the IP gate; '
